@@ -75,6 +75,7 @@ class Pages(Files):
             stat_result is None  # filepath is not exist
             and filepath is not None  # Just for type check
             and not filepath.endswith(".html")  # filepath is not a html file
+            and filepath != self.directory  # directory + ".html" is not inside it
         ):
             filepath += ".html"
             stat_result, is_file = self.check_path_is_file(filepath)
